@@ -138,7 +138,7 @@ func (r *propRun) runJob(j Job) {
 			b, _ := json.Marshal(v.W)
 			fmt.Printf("   counterexample %s %s known=%q %s\n      %s\n", v.Kind, v.ID, v.Known, v.Msg, b)
 		}
-		if j.Replay == "" && j.Fn2 == "" && len(v.W.CrashOps) == 0 {
+		if j.Replay == "" {
 			batch = append(batch, cand{v, fmt.Sprintf("v%d", len(batch))})
 		} else {
 			single = append(single, v)
@@ -166,7 +166,10 @@ func (r *propRun) runJob(j Job) {
 	if len(batch) > 0 {
 		var cases []nativeCase
 		for _, c := range batch {
-			nc := caseOf(c.id, j, c.v)
+			nc, ok := r.crashCase(c.id, j, c.v) // phase 0: plain case; later phases: crash image
+			if !ok {
+				continue
+			}
 			nc.Obs = nil
 			cases = append(cases, nc)
 		}
@@ -206,9 +209,16 @@ func (r *propRun) runJob(j Job) {
 		}
 	}
 	// 2. translator validation: cover witnesses replayed natively, observables compared
-	if len(res.Samples) > 0 && j.Replay != "none" && j.Replay != "gated" && j.Fn2 == "" {
+	if len(res.Samples) > 0 && j.Replay != "none" && j.Replay != "gated" {
 		var cases []nativeCase
 		for i, s := range res.Samples {
+			if j.Fn2 != "" {
+				// crash job: the final (recovery) phase runs natively on the engine's crash image
+				if c, ok := r.crashCase(fmt.Sprintf("s%d", i), j, s); ok && s.Phase >= 1 {
+					cases = append(cases, c)
+				}
+				continue
+			}
 			cases = append(cases, caseOf(fmt.Sprintf("s%d", i), j, s))
 		}
 		nres, out, err := r.nativeReplay(j, cases, nil, nil, false)
